@@ -7,14 +7,15 @@ class NativeCheck:
     SPECS = {
         "C17": dict(mod="checks.kernels_native", fn="run", vc="kernels_vc", level="other",
                     text="C17: KernelCpu.to_function_arg / __call__ and KernelDispatcher.__call__ under contract relative to cffi/numpy axioms (pointer = base of the "
-                         "current storage + offset, typed as declared; element type of pointer arguments taken from the array; refusals); the FFI behaviour itself "
+                         "current storage + offset, typed as declared; element type of pointer arguments taken from the array; refusals); Arg.get_c_type and the dtype_dict table (different element "
+                         "types never share a declared / cast pointer type), cdef_from_kernel (signature lists every argument once, in order); the FFI behaviour itself "
                          "(marshalling, type checks, return values) is decided by the bounded native part: compiled echo/first/store/address kernels."),
         "C18": dict(mod="checks.hybrid_native", fn="run_c18", vc="hybrid_vc", level="other",
                     text="C18: HybridClass.move / copy / __getstate__ under contract on an abstract dressed object (copy construction of the data struct and "
                          "_reinit_from_xobject used through their contracts): move is refused, constructing nothing, for an object that lives within another "
                          "or whose data holds references, otherwise the data is copy-constructed once into the requested place, installed, and the nested "
                          "dressed parts are re-initialised from it; copy copy-constructs once (own context by default) and wraps the copy in a new object, the "
-                         "original untouched.  Descriptors (_FieldOfDressed), MetaHybridClass.__new__, _reinit_from_xobject itself and the mirroring of buffer "
+                         "original untouched, the ownership flags of the result as constructed.  Descriptors (_FieldOfDressed), MetaHybridClass.__new__, _reinit_from_xobject itself and the mirroring of buffer "
                          "data under renaming are outside the python subset: run-time contract DressInv after every step of operation histories on generated "
                          "hybrid classes (bounded)."),
         "C19": dict(mod="checks.hybrid_native", fn="run_c19", vc="types_vc", level="other",
@@ -30,7 +31,9 @@ class NativeCheck:
                          "instance gives a handle with HandleInv (size and offsets re-read from the buffer words, every field read through its type at the documented "
                          "address), i.e. the unpickled object is a view rebuilt from buffer and offset (C06).  Assumed: AX-pickle (loads(dumps(x)) = __setstate__ on "
                          "object.__new__(type(x)) with a copy of the state in which each buffer object is copied once per dump with equal bytes, capacity and free "
-                         "list).  Arrays, hybrid classes, sharing within one dump and the buffer staying a working allocator are decided by the bounded part: pickle "
+                         "list).  HybridClass.__getstate__ (top-level or nested, with or without references: the state of the own xobject, nothing constructed) and "
+                         "HybridClass.__setstate__ (the view rebuilt from exactly the pickled buffer and offset is installed and the nested parts re-initialised from it) "
+                         "are under contract on an abstract dressed object.  Arrays, sharing within one dump and the buffer staying a working allocator are decided by the bounded part: pickle "
                          "round trips of importable struct/array/hybrid objects, single and in groups sharing a buffer."),
     }
 
@@ -54,7 +57,12 @@ class NativeCheck:
             import importlib
 
             mod = importlib.import_module("checks." + self.sp["vc"])
-            return mod.targets(self.PROP) if self.sp["vc"] in ("types_vc", "hybrid_vc") else mod.targets()
+            ts = mod.targets(self.PROP) if self.sp["vc"] in ("types_vc", "hybrid_vc") else mod.targets()
+            if self.PROP == "C20":
+                from . import hybrid_vc
+
+                ts = ts + hybrid_vc.targets("C20")  # HybridClass.__getstate__ / __setstate__
+            return ts
         return []
 
     def bounded(self, tier, seed, focus):
